@@ -928,7 +928,8 @@ func (p *proxyObject) __isCompatibleDescriptor(extensible bool, desc *PropertyDe
 		}
 
 		if desc.IsData() != !current.accessor {
-			return desc.Configurable != FLAG_FALSE
+			// a non-configurable property cannot change between data and accessor
+			return false
 		}
 
 		if desc.IsData() && !current.accessor {
@@ -946,16 +947,25 @@ func (p *proxyObject) __isCompatibleDescriptor(extensible bool, desc *PropertyDe
 		}
 		if desc.IsAccessor() && current.accessor {
 			if !current.configurable {
-				if desc.Setter != nil && desc.Setter.SameAs(current.setterFunc) {
+				if desc.Setter != nil && !sameAccessorFunc(desc.Setter, current.setterFunc) {
 					return false
 				}
-				if desc.Getter != nil && desc.Getter.SameAs(current.getterFunc) {
+				if desc.Getter != nil && !sameAccessorFunc(desc.Getter, current.getterFunc) {
 					return false
 				}
 			}
 		}
 	}
 	return true
+}
+
+// sameAccessorFunc reports whether a getter/setter given in a descriptor (an object or undefined)
+// is the function currently installed (nil when there is none).
+func sameAccessorFunc(v Value, f *Object) bool {
+	if o, ok := v.(*Object); ok {
+		return o == f
+	}
+	return f == nil
 }
 
 func (p *proxyObject) __sameValue(val1, val2 Value) bool {
